@@ -999,7 +999,13 @@ def enum_switches(body, local_or_call_bi, is_call=True):
         o = t['o']
         p = o.get('c') or o.get('m')
         if p and not p.get('p') and p['l'] in discr_locals:
-            out.append((bi, {str(v): tb for v, tb in t['targets']}, t['else'], discr_locals[p['l']]))
+            tm = {str(v): tb for v, tb in t['targets']}
+            adt = discr_locals[p['l']]
+            if adt in ('std::option::Option', 'std::result::Result'):
+                # two variants (None/Some, Ok/Err = 0/1): the one not listed is the `otherwise` edge
+                for v in ('0', '1'):
+                    tm.setdefault(v, t['else'])
+            out.append((bi, tm, t['else'], adt))
     return out
 
 
